@@ -45,7 +45,7 @@ ASSUMPTIONS = [
     "known findings are keyed by (failure kind, graph and event of the SHRUNK failing input up to renaming of variables); the "
     "shrinker keeps the failure kind (wrong value / wrong zero / crash class) fixed while shrinking",
 ]
-EXHAUSTIVE = {"quick": False, "thorough": False}
+EXHAUSTIVE = {"quick": False, "thorough": True}   # thorough: every graph on <=2 nodes x every event with <=2 conjuncts
 LEANCHECK_MODULES = ["Y0.Model.Cg", "Y0.Model.IdStar", "Y0.Props.C07"]
 
 X, W, Y, D, Z = C18.X, C18.W, C18.Y, C18.D, C18.Z
@@ -78,6 +78,8 @@ def cases(rng: random.Random, tier: str):
             c["g"] = dict(g, di=g["di"] + [[g["di"][0][1], g["di"][0][0]]])
             c["malformed"] = "cyclic"
         out.append(c)
+    if tier == "thorough":
+        out += K.exhaustive_event_cases(2, 2)
     return out
 
 
@@ -225,16 +227,20 @@ def finding_key(case, res):
 
 
 MANIFEST = {
-    "text": ("Partial proof. Lean theorems about the executable model of id_star.py (Y0/Model/IdStar.lean): the model is total "
-             "with the error taxonomy {estimand, Zero, unidentifiable, cyclic input} for every fuel (RuntimeError of line 6 is "
-             "unreachable), line 2 is sound (an event violating effectiveness has probability 0 in every functional SCM), line 3 "
-             "is sound (removing tautologies preserves the probability in every functional SCM), the line-3 recursion strictly "
-             "shrinks the event and happens at most once, every leaf of a returned estimand is a single-world interventional "
-             "term (C06 part). Soundness of the returned estimand (lines 4-9) has NO theorem; on the current tree it is false "
-             "(F10): the check decides it by correspondence with the real code plus exact evaluation on sampled functional "
-             "SCMs and lists the known wrong answers as open findings keyed by minimal failing events."),
+    "text": ("Partial proof. Lean theorems about the executable model of id_star.py (Y0/Model/IdStar.lean), for every graph, "
+             "event, fuel and iteration order: line 2 is sound (an event violating effectiveness has probability 0 in every "
+             "functional SCM), line 3 is sound (removing tautologies preserves the probability in every functional SCM), the "
+             "line-3 recursion strictly shrinks the event and is taken at most once; error taxonomy: on an acyclic graph and "
+             "a well-formed event the only outcomes are an estimand, Zero, 'unidentifiable' or the model's fuel bound (the "
+             "RuntimeError of line 6, the null-graph error of nx.is_connected, ValueError/NetworkXError of the helpers are "
+             "unreachable); an answer reached with some fuel is not changed by more fuel; every leaf of a returned estimand is a "
+             "single-world interventional term (C06 part). Soundness of the returned estimand and of Zero from lines 4-9 has NO "
+             "theorem; on the current tree it is false (F10): the check decides it by correspondence with the real code plus "
+             "exact evaluation on sampled functional SCMs and lists the known wrong answers as open findings keyed by minimal "
+             "failing events. Termination of the line-6 recursion is by fuel in the model (never exhausted on any generated "
+             "input), not proved."),
     "note": ("Trusted: Lean kernel + standard axioms; the hand-written models tied to the code by differential testing under "
              "all set-iteration orders; the reading convention of estimands stated in ASSUMPTIONS; sampled models (8 per "
-             "case). Termination beyond line 3 is by fuel, checked on every input, proved only in part."),
-    "technique": "Lean 4 theorems (error taxonomy, lines 2-3 over all functional SCMs, vocabulary invariant) + differential correspondence + exact-rational functional-SCM oracle + shrunk known findings",
+             "case). One small defect was fixed (line 9 marginalisation, 4295b26); 28 minimal wrong answers stay open."),
+    "technique": "Lean 4 theorems (lines 2-3 over all functional SCMs, error taxonomy, vocabulary invariant) + differential correspondence + exact-rational functional-SCM oracle + shrunk known findings",
 }
